@@ -39,6 +39,13 @@ def sa_tiers(t, kind):
 def c03_jobs(tier):
     t = 1 if tier == "quick" else 2
     jobs = []
+    # one large data field per payload kind: 32768 +- and the largest that fits (fixed part per kind), one beyond
+    fixed = {34: 4, 35: 4, 36: 4, 37: 1, 38: 1, 39: 4, 40: 0, 41: 8, 43: 0, 47: 8}
+    for i, (k, f) in enumerate(sorted(fixed.items())):
+        top = 65535 - 4 - f
+        sizes = [(32764 - f, 40000)[i % 2], top, top + 1] if tier == "quick" else [32763 - f, 32764 - f, 40000, top - 1, top, top + 1, 70000]
+        for n in sizes:
+            jobs.append(job(MSG, "HBigCodec", [k, n], wall_ms=600000))
     for k in PAYLOAD_KINDS:
         for tt in sa_tiers(t, k):
             jobs.append(job(MSG, "HCodecRoundTrip", [tt, k, 0], wall_ms=1200000))
